@@ -112,6 +112,16 @@ CHECKS = {
     design_ref='DESIGN.md 5/C14',
     note=('Trusted: Coq kernel, ExtrOcamlBasic, driver and Python harness. The pyparsing grammar is not modelled; that it factors through the tokens is tested, not proved. DATA payload and TAB handling carry known findings.'),
     technique='Rocq proof over hand-written Gallina model + differential correspondence against the implementation'),
+ 'C13': dict(
+    category='proof',
+    text=('19 closed Rocq theorems over the executable model of the debugger evaluator (Models/DbgEval.v) on the machine model: purity (the evaluator is a function of heap and current frame and returns no state), unknown names, scalar locals/SHARED/parameters return the cell IRead (or read@ + deref) pushes for every declaration list, '
+          'array elements of every rank agree with IArridx + IDeref (nested-list indexing = row-major cell), unset elements read 0/"", record fields along any path read the cell at base + dotted_index, out-of-range and wrong-rank subscripts are evaluation errors, debugger arithmetic = the folder on the values read, INTEGER operators equal the run-time cell (guarded as fold_sound_int); '
+          'vm_compute refutations for D01, D43, STATIC, types-resolved-in-main, evaluation after finish, paths on scalars. Tied to the code by T-dbg: the real qvm.dbg.Cmd print inside generated programs x {-O0,-O2} that PRINT every probe themselves (reference = the typed cell handed to PRINT), full machine-state equality around every print, '
+          'and the extracted model on the same debug tables, memory and parsed tree.'),
+    design_ref='DESIGN.md 5/C13',
+    note=('Trusted: Coq kernel (incl. vm_compute), ExtrOcamlBasic, ocaml/driver.ml, Python harness (generator, typed-cell capture, state_out). Modelled, not verified: qvm/eval.py, find_routine, the evaluation half of do_print, Lvalue.type; arithmetic via Models/Fold.v, layout via Models/Layout.v. '
+          'Not modelled: the expression parser (the model receives the real tree), float text, QStruct/QArray dumps, function calls. Scalar/element/field theorems carry the premise "the type the debugger assigns is the declared one", false in general inside procedures (D49). Partial exactly where C02 is partial.'),
+    technique='Rocq proof over a hand-written Gallina model + differential correspondence judged against the program own values'),
 }
 
 ALL = ['C%02d' % i for i in range(1, 21)]
